@@ -108,6 +108,9 @@ def load_defs(repo):
     d.enums.setdefault("Cow", [("Borrowed", "tuple", [("0", "B")]), ("Owned", "tuple", [("0", "O")])])
     d.enums.setdefault("Ordering", [("Less", "unit", []), ("Equal", "unit", []), ("Greater", "unit", [])])
     d.structs.setdefault("Range", [("start", "Idx"), ("end", "Idx")])
+    d.structs.setdefault("RangeFrom", [("start", "Idx")])
+    d.structs.setdefault("RangeTo", [("end", "Idx")])
+    d.structs.setdefault("RangeFull", [])
     return d
 
 
